@@ -723,7 +723,15 @@ def slot_discipline(R, E, F, CG, state, rule, writers=('send',), may_take=True):
                 if e['k'] == 'write' and not any(t['k'] in ('take', 'replace') and t['loc'] == loc and t.get('ln') == e.get('ln')
                                                  for t in path.events):
                     n += 1
-                    if m.get('impl_adt') == state and m.get('name') in writers:
+                    oldk = E.variant_known(path.facts, e['old']) if e.get('old') is not None else None
+                    if e['val'] == NONE and may_take and not (e.get('old') == NONE or oldk == ('eq', 'None')):
+                        R.fail(rule, [m['path'], 'slot-emptied-without-delivery'],
+                               '%s overwrites the value slot with None on a path that does not know it to be empty: a '
+                               'value that was accepted is discarded by the library [%s]' % (m['path'], path_cond(E, path)),
+                               where(F, e), {'trace': trace_summary(path)})
+                    elif e['val'] == NONE and may_take:
+                        R.ok(rule, '%s|None written over an empty slot' % m['path'])
+                    elif m.get('impl_adt') == state and m.get('name') in writers:
                         R.ok(rule, '%s|slot assigned by %s' % (m['path'], m.get('name')))
                     elif e['val'] == NONE and not may_take:
                         R.fail(rule, [m['path'], 'slot-cleared'], '%s clears the value slot' % m['path'], where(F, e),
